@@ -111,6 +111,41 @@ func CreateSubscription(c gocoro.Coroutine[*t_aio.Submission, *t_aio.Completion,
 					Timeout:   r.CreateSubscription.Timeout,
 					CreatedOn: createdOn,
 				}
+			} else {
+				// the insert matched nothing: either this subscription exists already or the promise was
+				// completed since it was read, answer with the promise as it stands now so that
+				// a caller is never told to wait for a completed promise
+				completion, err := gocoro.YieldAndAwait(c, &t_aio.Submission{
+					Kind: t_aio.Store,
+					Tags: r.Tags,
+					Store: &t_aio.StoreSubmission{
+						Transaction: &t_aio.Transaction{
+							Commands: []*t_aio.Command{
+								{
+									Kind: t_aio.ReadPromise,
+									ReadPromise: &t_aio.ReadPromiseCommand{
+										Id: r.CreateSubscription.PromiseId,
+									},
+								},
+							},
+						},
+					},
+				})
+				if err != nil {
+					slog.Error("failed to read promise", "req", r, "err", err)
+					return nil, t_api.NewError(t_api.StatusAIOStoreError, err)
+				}
+
+				util.Assert(completion.Store != nil, "completion must not be nil")
+				util.Assert(len(completion.Store.Results) == 1, "completion must have one result")
+
+				if result := completion.Store.Results[0].ReadPromise; result != nil && result.RowsReturned == 1 {
+					p, err = result.Records[0].Promise()
+					if err != nil {
+						slog.Error("failed to parse promise record", "record", result.Records[0], "err", err)
+						return nil, t_api.NewError(t_api.StatusAIOStoreError, err)
+					}
+				}
 			}
 		}
 
